@@ -45,6 +45,9 @@ def check(ctx):
     from . import c01 as _c01
 
     _c01.r01_8(ctx)  # --format on the selected records uses the same graph tables
+    from . import conv_common as _cc
+
+    _c01.r01_9(ctx, _cc.build(ctx, "R01.9"))  # and must not disturb them: records converted later in the same run share them
     irun = c03.index_run(ctx, "R03")
     ctx.analysed_func(irun)
     info = c03.r03_1(ctx, irun)
